@@ -612,41 +612,47 @@ def mkShuffleOnce (perm : List Nat) (d : DS) : Res DS := do
   let perm := if perm.length == n then perm else List.range n
   mkSlice (.idx (perm.map Int.ofNat)) d
 
-/-- sort keys are ints or strs (what the menu of key functions produces) -/
+/-- group ids are ints or strs (what the menu of functions produces) -/
 inductive SKey where
   | int (i : Int) | str (s : String)
   deriving Repr, DecidableEq
-
-/-- Python `<=` on two sort keys of the same type; `none` = `TypeError` -/
-def SKey.cmp : SKey → SKey → Option Ordering
-  | .int a, .int b => some (compare a b)
-  | .str a, .str b => some (compare a b)
-  | _, _ => none
 
 def SKey.ofVal : Val → Option SKey
   | .int i => some (.int i)
   | .str s => some (.str s)
   | _ => none
 
-/-- tuple comparison `(key, index) ≤ (key', index')` as `sorted(zip(values, count()))` performs it -/
-def pairLe (a b : SKey × Nat) : Bool :=
-  match a.1.cmp b.1 with
-  | some .lt => true
-  | some .gt => false
-  | _ => a.2 ≤ b.2
+/-- tuple comparison `(key, index) ≤ (key', index')` as `sorted(zip(values, count()))` performs it,
+    generic in the (strict) order of the key type -/
+def pairLeBy {κ} (lt : κ → κ → Bool) (a b : κ × Nat) : Bool :=
+  if lt a.1 b.1 then true
+  else if lt b.1 a.1 then false
+  else a.2 ≤ b.2
 
-def homogeneous : List SKey → Bool
-  | [] => true
-  | .int _ :: rest => rest.all (fun k => match k with | .int _ => true | _ => false)
-  | .str _ :: rest => rest.all (fun k => match k with | .str _ => true | _ => false)
-
-/-- `[index for _, index in sorted(zip(values, count()), reverse=reverse)]` -/
-def sortOrder (ks : List SKey) (reverse : Bool) : List Nat :=
-  let sorted := (ks.zipIdx).mergeSort pairLe
+/-- `[index for _, index in sorted(zip(values, count()), reverse=reverse)]`.
+    All `(value, index)` tuples are distinct, so `reverse=True` is the reversed ascending order. -/
+def sortOrderBy {κ} (lt : κ → κ → Bool) (ks : List κ) (reverse : Bool) : List Nat :=
+  let sorted := (ks.zipIdx).mergeSort (pairLeBy lt)
   let sorted := if reverse then sorted.reverse else sorted
   sorted.map (·.2)
 
+def intLt (a b : Int) : Bool := a < b
+def strLt (a b : String) : Bool := a < b
 def strLe (a b : String) : Bool := a ≤ b
+
+def asInts : List Val → Option (List Int)
+  | [] => some []
+  | .int i :: rest => (asInts rest).map (i :: ·)
+  | _ :: _ => none
+
+def asStrs : List Val → Option (List String)
+  | [] => some []
+  | .str s :: rest => (asStrs rest).map (s :: ·)
+  | _ :: _ => none
+
+/-- `sorted(keys, reverse=reverse)` on a list of distinct-or-not strings (stable) -/
+def sortKeys (ks : List String) (reverse : Bool) : List String :=
+  if reverse then ks.mergeSort (fun a b => strLe b a) else ks.mergeSort strLe
 
 def mkSort (keyFn : Option (Val → Res Val)) (reverse : Bool) (d : DS) : Res DS :=
   match keyFn with
@@ -655,17 +661,18 @@ def mkSort (keyFn : Option (Val → Res Val)) (reverse : Bool) (d : DS) : Res DS
     | .error e => if e == .notImplemented then .error .runtimeError else .error e
     | .ok ks =>
       -- after the fix of F7: `sort_fn(keys, reverse=reverse)`
-      let sorted := ks.mergeSort strLe
-      let sorted := if reverse then sorted.reverse else sorted
-      mkSlice (.keys sorted) d
+      mkSlice (.keys (sortKeys ks reverse)) d
   | some f => do
     let vs ← streamToRes d.iter
     let kv ← vs.mapM f
-    match kv.mapM SKey.ofVal with
-    | none => .error .typeError
-    | some ks =>
-      if !homogeneous ks && ks.length > 1 then .error .typeError
-      else mkSlice (.idx ((sortOrder ks reverse).map Int.ofNat)) d
+    match asInts kv with
+    | some is => mkSlice (.idx ((sortOrderBy intLt is reverse).map Int.ofNat)) d
+    | none =>
+      match asStrs kv with
+      | some ss => mkSlice (.idx ((sortOrderBy strLt ss reverse).map Int.ofNat)) d
+      | none =>
+        if kv.length ≤ 1 then mkSlice (.idx ((List.range kv.length).map Int.ofNat)) d
+        else .error .typeError
 
 /-- `groupby`: group ids in first-occurrence order, each with the indices of its members -/
 def groupInsert (g : SKey) (i : Nat) : List (SKey × List Nat) → List (SKey × List Nat)
